@@ -2,7 +2,7 @@ package db
 
 // Demonstrations for property C18 (resync equals evaluating the new sync function from scratch).
 //
-// TestGovcF6 (candidate finding F6, obligation db.lemma.c18_cancel_means_no_leaf_change/lemma/no-leaf-differs):
+// TestGovcF6 (candidate finding F6, obligation db.DatabaseCollectionWithUser.getResyncedDocument$1/post/leaf-change-counted):
 // a document with two conflicting leaves; the new sync function assigns the WINNING leaf the same channel as
 // before and the NON-WINNING leaf a different one. getResyncedDocument recomputes the channel set of the
 // non-winning leaf in memory (rev.Channels = channels), but `changed` counts the differences of the winning
